@@ -439,6 +439,11 @@ def gen_chain_case(rng, proxy=False):
         use_jar = True
         max_redirects = 20
         other = rng.choice(['b.example', 'c.test', 'sub.a.example', '[::1]'])
+        start_host = urllib.parse.urlsplit(url).netloc.rpartition('@')[2]
+        if rng.random() < 0.6 and not start_host.startswith('[') and not start_host[0].isdigit():
+            # a host whose name ENDS with the first host's name (sub-domain, look-alike): it never challenged,
+            # so the login the first host accepted must not be sent to it
+            other = rng.choice(['www.', 'login.', 'evil', 'not-', 'x']) + start_host
         replies = [{'status': 401, 'location': None, 'cookies': [b'ckA=v%d' % rng.randrange(1000)], 'mode': 'resp'},
                    {'status': rng.choice([307, 308]), 'location': ('http://%s/t%d' % (other, rng.randrange(100))).encode(),
                     'cookies': [b'ckB=v%d' % rng.randrange(1000)] if rng.random() < 0.5 else [], 'mode': 'resp'}] + replies
@@ -555,6 +560,7 @@ def check_session_case(ctx, case):
             break
     cookie_src = {}
     userinfo_src = {}
+    challenged = set()          # origins (Host values) that have answered 401 so far in this visit
     if info0.username or info0.password:
         userinfo_src.setdefault((info0.username or '', info0.password or ''), set()).add(rc.expected_host(info0))
     for k, (host, port, head, body) in enumerate(res['hops']):
@@ -609,6 +615,13 @@ def check_session_case(ctx, case):
                     owner = [sorted(hs) for ui, hs in userinfo_src.items() if '%s:%s' % ui == up]
                     ctx.fail('cross-host-credentials', where, case,
                              'hop %d to %s carries credentials %r that belong to %r (head %r)' % (k, hvals, up, owner, head[:300]))
+                elif up not in {'%s:%s' % (ui[0] or (login[0] if login else ''), ui[1]) for ui in here if ui[1]} \
+                        and (hvals[0] if hvals else None) not in challenged:       # a password in the hop URL addresses the login to that host
+                    # the configured login (or a URL user name completed with it) goes only to an origin that asked for it:
+                    # one that has answered 401 in this visit — not to a host that merely has a similar name
+                    ctx.fail('unchallenged-credentials', 'WebSession.start', case,
+                             'hop %d to %s carries the login %r although that origin never sent a challenge (challenged so far: %s; head %r)'
+                             % (k, hvals, up, sorted(challenged), head[:300]))
             if n.lower() == 'cookie':
                 for part in v.split(';'):
                     cname = part.strip().split('=', 1)[0]
@@ -619,6 +632,8 @@ def check_session_case(ctx, case):
                         ctx.fail('cross-host-cookie', where, case,
                                  'hop %d to %s carries cookie %r set by %s (Domain=%r)' % (k, hvals, part, src[0], src[1]))
         # learn from the reply to this hop
+        if k < len(replies) and replies[k].get('mode', 'resp') == 'resp' and replies[k].get('status') == 401 and hvals:
+            challenged.add(hvals[0])
         if k < len(replies) and replies[k].get('mode', 'resp') == 'resp':
             for c in replies[k].get('cookies', ()):
                 txt = c.decode('latin-1')
@@ -813,6 +828,7 @@ def check_app_case(ctx, case):
     # credentials written in a URL belong to that URL's origin (host[:port]); the configured login belongs to no host
     login = tuple(case['login']) if case.get('login') else None
     cred_owner = {}
+    app_challenged = set()      # origins that have answered 401: only those may be sent the configured login
     k0, info0 = rc.parse_url(case['url'])
     if k0 == 'url' and (info0.username or info0.password):
         cred_owner.setdefault('%s:%s' % (info0.username or '', info0.password or ''), set()).add(rc.expected_host(info0))
@@ -864,12 +880,12 @@ def check_app_case(ctx, case):
                 ctx.tag('app:authorization-sent')
                 up = rc.decode_basic(v)
                 origin = hvals[0] if hvals else host
-                ok = (login is not None and up == '%s:%s' % login) or origin in cred_owner.get(up, ())
+                ok = (login is not None and up == '%s:%s' % login and origin in app_challenged) or origin in cred_owner.get(up, ())
                 if login is not None:
                     for own, origins in cred_owner.items():        # URL user name with the configured password, and the like
                         if origin in origins:
                             u, _, p = own.partition(':')
-                            ok = ok or up in ('%s:%s' % (u or login[0], p or login[1]),)
+                            ok = ok or (up in ('%s:%s' % (u or login[0], p or login[1]),) and (bool(p) or origin in app_challenged))
                 if not ok:
                     ctx.fail('cross-host-credentials', 'WebProcessorSession._populate_common_request', case,
                              'request %d to %s carries Authorization for %r, which belongs to %s (head %r)'
@@ -887,6 +903,8 @@ def check_app_case(ctx, case):
                         ctx.fail('cross-host-cookie', 'ClientSetupTask._build_cookie_jar', case,
                                  'request %d to %s carries cookie %r that belongs to %s (Domain=%r); cookie options %r'
                                  % (k, hvals, part.strip(), src[0], src[1], opt))
+        if k < len(case['replies']) and case['replies'][k].get('status') == 401 and hvals:
+            app_challenged.add(hvals[0])
         if k < len(case['replies']):
             for c in case['replies'][k].get('cookies', ()):
                 txt = c.decode('latin-1')
@@ -932,6 +950,8 @@ def gen_app_cases(rng, n_cookie, n_referer, n_auth=0, n_proxy=0, n_cookiefile=0)
         u = rng.randrange(1000)
         src = rng.choice(['a.example', 'a.example:8080', '[2001:db8::2]'])
         dst = rng.choice([h for h in ('b.example', 'a.example:8080', 'a.example', 'sub.a.example', '[2001:db8::5]') if h != src])
+        if i % 4 == 3 and not src.startswith('['):
+            dst = rng.choice(['www.', 'evil']) + src       # configured login, a host whose name ends with the first host's name
         ui = '' if rng.random() < 0.75 else 'lu%d:lp%d@' % (u, u)
         first = [307, 308][i % 2] if i < 4 else rng.choice([301, 302, 303, 307, 308])
         replies = [{'status': first, 'location': ('http://%s%s/t' % (ui, dst)).encode(), 'cookies': [], 'mode': 'resp'},
